@@ -9,7 +9,7 @@ IDX = [('abs', 0), ('abs', 1), ('abs', -1), ('len', 0), ('len', 1), ('len', -1),
 
 def ops_all():
     ops = []
-    for k in ['b0', 'b1', 'k2', 'sb', 'sk', 'bad1', 'bad2', 'blank']:
+    for k in ['b0', 'b1', 'k2', 'sb', 'sk', 'bad1', 'bad2', 'blank', 'sbb', 'skk', 'sbn', 'sknb']:
         ops.append(('append', k))
     ops.append(('extend', ('b1', 'k2')))
     ops.append(('extend', ('sb', 'bad1')))
@@ -17,7 +17,7 @@ def ops_all():
         for k in ['b1', 'k2', 'sk']:
             ops.append(('insert', i, k))
     ops.append(('insert', ('abs', 0), 'bad3'))
-    for k in ['b0', 'b1', 'k2', 'sb', 'sk', 'b0x']:
+    for k in ['b0', 'b1', 'k2', 'sb', 'sk', 'b0x', 'sbb', 'skk']:
         ops.append(('remove', k))
     for i in [('abs', 0), ('abs', -1), ('abs', 1), ('len', 0), ('abs', -4)]:
         ops.append(('pop', i))
@@ -47,6 +47,6 @@ def plan(tier, seed):
     return dict(units=units,
                 bounds={'sequences': 'all operation sequences of length <= 2 over %d operation instances (%s)' % (len(ops), 'plus length 3 over the insert/pop/remove/reverse core' if depth == 3 else 'owner-attached lists: mutator pairs'),
                         'start_lists': [list(s) for s in starts],
-                        'pool': 'BraceGroup(H0), BraceGroup(H1), BracketGroup(H2), second BraceGroup(H0); strings {H1} [H0] and mismatched/blank strings; H symbolic letters'},
+                        'pool': 'BraceGroup(H0), BraceGroup(H1), BracketGroup(H2), second BraceGroup(H0); strings {H1} [H0] {{H1}} [[H0]] {H2{y}} [{H1}] and mismatched/blank strings; H symbolic letters'},
                 outside=['sequences longer than %d' % depth],
                 assumptions=['reference = Python list of the same group objects; coerced strings compared by kind and text'])
